@@ -74,6 +74,8 @@ def class_recipes():
             continue
         if name == "Delay":
             recipes.append(("Delay", lambda ph: O.Delay(m, ph[0], 3.0, 1.5), 1))
+            # duration and initial value given as model ELEMENTS (sd.delay accepts a Constant/Converter duration)
+            recipes.append(("Delay[element]", lambda ph: O.Delay(m, ph[0], ph[1], ph[2]), 3))
             continue
         if name == "Lookup":
             recipes.append(("Lookup", lambda ph: O.Lookup(ph[0], "tbl"), 1))
@@ -110,9 +112,9 @@ def probe_tables():
             continue
         # a placeholder that was asked for another time stays a literal memoize call: time not threaded
         miss = [i for i in range(n) if f"H{i}" not in wd or f"H{i}" not in wt]
-        if key == "Delay":
-            miss = []          # input is asked at the delayed time by definition; covered by shiftOK on the literal tokens
-            n = 0
+        if key in ("Delay", "Delay[element]"):
+            miss = []          # input is asked at the delayed time (duration / initial value at the start time) by definition;
+            n = 0              # covered by shiftOK and the spec shape on the literal tokens
         if miss:
             unthreaded[key] = miss
         tt.append((key, n, wt))
@@ -243,8 +245,17 @@ def gen_expr(rng, depth, refs, feat):
         if r < 8:
             return ("num", rnum(rng))
         return (rng.choice(["time", "dt", "start"]),)
-    r = rng.below(24)
+    r = rng.below(28)
     a = lambda: gen_expr(rng, depth - 1, refs, feat)
+    if r >= 24:
+        # opaque library functions (np.sin / np.cos / np.exp, ** 0.5) and the wave built-ins
+        if r == 24:
+            return (rng.choice(["sinwave", "coswave"]), a(), rng.choice([4.0, 2.0, 8.0, 3.0]))
+        if r == 25:
+            return ("exp", ("min", a(), ("num", 2.0)))
+        if r == 26:
+            return ("sqrt", ("abs", a()))
+        return ("mul", ("sqrt", ("abs", a())), ("num", rng.choice([0.5, 2.0])))
     if r < 8:
         return (rng.choice(["add", "sub", "mul"]), a(), a())
     if r < 10:
@@ -260,19 +271,63 @@ def gen_expr(rng, depth, refs, feat):
     if r < 18:
         return ("if", ("cmp", rng.choice([">", "<", ">=", "<="]), a(), a()), a(), a())
     if r < 20:
-        return ("step", a(), ("num", rng.choice([1.0, 2.0, 0.5, 1.5])))
+        pars = feat.get("consts", []) + feat.get("pconvs", [])
+        return ("step", a(), ("ref", rng.choice(pars)) if pars and rng.chance(1, 3) else ("num", rng.choice([1.0, 2.0, 0.5, 1.5])))
     if r < 22 and feat["tables"]:
         return ("lookup", a(), rng.choice(feat["tables"]))
     if r < 23 and refs:
-        return ("delay", rng.choice(refs), rng.choice([1.0, 0.5, 2.0]), rnum(rng))
-    return ("pulse", rnum(rng), rng.choice([0.5, 1.0, 2.0, 3.0, 0.3, 1.1, 0.75]), rng.choice([0.0, 0.5, 1.0, 0.3, 0.6]))
+        # duration: a number or a Constant element; initial value: a number, a Constant element, or none (= input at start)
+        consts = feat.get("consts", [])
+        durs = consts + feat.get("pconvs", [])          # duration: Constant or Converter element
+        dur = ("ref", rng.choice(durs)) if durs and rng.chance(1, 3) else rng.choice([1.0, 0.5, 2.0])
+        init = rng.choice([rnum(rng), rnum(rng), None] + ([("ref", rng.choice(consts))] if consts else []))
+        return ("delay", rng.choice(refs), dur, init)
+    # pulse: volume a number or any element; first pulse / interval numbers or Constant elements
+    consts = feat.get("consts", [])
+    vol = ("ref", rng.choice(refs)) if refs and rng.chance(1, 3) else rnum(rng)
+    first = ("ref", rng.choice(consts)) if consts and rng.chance(1, 4) else rng.choice([0.5, 1.0, 2.0, 3.0, 0.3, 1.1, 0.75])
+    iv = ("ref", rng.choice(consts)) if consts and rng.chance(1, 3) else rng.choice([0.0, 0.5, 1.0, 0.3, 0.6])
+    return ("pulse", vol, first, iv)
 
 
-def gen_model(rng, dts):
+VOPS = ["add", "sub", "mul", "div"]
+
+
+def gen_vector_family(rng, scalars):
+    """arrayed elements: a vector of stocks with element-wise equations through vector converters / flows.
+    The DSL supports one operator per arrayed equation (nested arrayed operators raise), so every equation is
+    a single element-wise operation; depth comes from chaining vector elements."""
+    size = rng.range(2, 3)
+    nums = lambda: [rnum(rng) for _ in range(size)]
+    els = [("vk", "vconstant", nums())]
+    def operand(vecs):
+        r = rng.below(4)
+        if r == 0 and scalars: return ("ref", rng.choice(scalars))
+        if r == 1: return ("num", rng.choice([2.0, 0.5, 1.5, 4.0]))
+        return ("vref", rng.choice(vecs))
+    def eqn(vecs):
+        r = rng.below(8)
+        v = ("vref", rng.choice(vecs))
+        if r == 0: return ("neg", v)
+        if r == 1: return ("nmul", rng.choice([2.0, 0.5, -1.0]), v)
+        if r == 2: return ("add", v, ("time",))
+        op = rng.choice(VOPS)
+        o = operand(vecs)
+        if op == "div":
+            return ("div", v, ("num", rng.choice([2.0, 4.0, 8.0])))
+        return (op, v, o) if rng.chance(2, 3) or o[0] == "num" else (op, o, v)
+    els.append(("vc", "vconverter", eqn(["vs", "vk"])))
+    # (Biflow has no array support in the DSL: Biflow.add_arr_equation is the base-class no-op)
+    els.append(("vf", "vflow", eqn(["vc", "vk", "vs"])))
+    els.append(("vs", "vstock", (nums(), ("vref", "vf") if rng.chance(1, 2) else eqn(["vf", "vc"]))))
+    return size, els
+
+
+def gen_model(rng, dts, long_run=False):
     """acyclic model: list of (name, kind, payload) in dependency order for non-stocks"""
     dt = rng.choice(dts)
     start = rng.choice([0.0, 1.0, 2.0])
-    n = rng.range(3, 8)
+    n = rng.range(30, 40) if long_run else rng.range(3, 8)
     stop = start + n * dt
     tables = {"tbl": [[0.0, 1.0], [1.0, 3.0], [2.5, 2.0], [4.0, 6.0]]}
     feat = {"tables": list(tables)}
@@ -282,6 +337,17 @@ def gen_model(rng, dts):
     for i in range(rng.range(0, 2)):
         els.append((f"k{i}", "constant", rnum(rng)))
         avail.append(f"k{i}")
+    # positive constants usable as parameters of the built-ins (delay duration / initial value, averaging time)
+    for i in range(rng.range(0, 2)):
+        els.append((f"p{i}", "constant", rng.choice([1.0, 2.0, 0.5, 4.0])))
+        avail.append(f"p{i}")
+    feat["consts"] = [e[0] for e in els if e[0].startswith("p")]
+    # converters that are constant in time, usable where the DSL takes an element parameter that is not a Constant
+    feat["pconvs"] = []
+    if rng.chance(1, 2):
+        els.append(("q0", "converter", ("mul", ("ref", feat["consts"][0]), ("num", 2.0)) if feat["consts"] else ("num", rng.choice([1.0, 2.0, 0.5]))))
+        avail.append("q0"); feat["pconvs"].append("q0")
+    par = lambda choices: ("ref", rng.choice(feat["consts"])) if feat["consts"] and rng.chance(1, 3) else rng.choice(choices)
     for i in range(rng.range(1, 4)):
         kind = rng.choice(["converter", "flow", "biflow"])
         nm = f"{kind[0]}{i}"
@@ -289,13 +355,71 @@ def gen_model(rng, dts):
         avail.append(nm)
     if rng.chance(1, 3):
         src = rng.choice([e[0] for e in els if e[1] in ("converter", "biflow", "flow")] or stocks)
-        els.append(("sm", "converter", ("smooth", src, rng.choice([2.0, 4.0, 1.0]), rnum(rng))))
+        els.append(("sm", "converter", ("smooth", src, par([2.0, 4.0, 1.0]), par([rnum(rng)]))))
         avail.append("sm")
+    if rng.chance(1, 4):
+        src = rng.choice([e[0] for e in els if e[1] in ("converter", "biflow", "flow")] or stocks)
+        els.append(("tr", "converter", ("trend", src, par([2.0, 4.0, 1.0]), par([1.0, 2.0, 0.5, -1.0, 4.0]))))
+        avail.append("tr")
+    vsize = 0
+    if rng.chance(1, 3):
+        vsize, vels = gen_vector_family(rng, [e[0] for e in els if e[1] in ("converter", "constant")])
+        els += vels
     for s in stocks:
         init = rng.choice([("num", rnum(rng))] + [("ref", e[0]) for e in els if e[1] == "constant"])
         # every operator form also directly inside a stock equation
         els.append((s, "stock", (init, gen_expr(rng, rng.range(1, 3), avail, feat))))
-    return {"start": start, "dt": dt, "stop": stop, "n": n, "tables": tables, "els": els}
+    return {"start": start, "dt": dt, "stop": stop, "n": n, "tables": tables, "els": els, "vsize": vsize}
+
+
+def directed_models(dts):
+    """deterministic family: every leaf / built-in form as left and as right operand of `-` and `/` directly inside a
+    stock equation (the place where the text is rendered at `t-model.dt`) and inside a flow"""
+    forms = [("time",), ("dt",), ("start",), ("num", 1.5), ("ref", "c0"), ("nmul", 2.0, ("ref", "c0")), ("neg", ("ref", "c0")),
+             ("abs", ("ref", "c0")), ("min", ("ref", "c0"), ("time",)), ("if", ("cmp", ">", ("time",), ("num", 1.0)), ("ref", "c0"), ("time",)),
+             ("step", ("ref", "c0"), ("num", 1.0)), ("lookup", ("time",), "tbl"), ("delay", "c0", 1.0, 0.5), ("delay", "c0", ("ref", "p0"), None),
+             ("pulse", 2.0, 1.0, 0.0), ("sinwave", ("ref", "c0"), 4.0), ("exp", ("min", ("time",), ("num", 2.0))), ("sqrt", ("abs", ("time",))),
+             ("smooth", "c0", 2.0, 1.0), ("trend", "c0", ("ref", "p0"), 2.0),
+             # parameters of the built-ins given as model elements (Constant p0 = 2.0, Converter q0 = 1.0)
+             ("delay", "c0", ("ref", "q0"), ("ref", "p0")), ("pulse", ("ref", "c0"), ("ref", "p0"), ("ref", "p0")), ("pulse", 2.0, 1.0, ("ref", "p0")),
+             ("step", ("ref", "c0"), ("ref", "q0")), ("smooth", "c0", ("ref", "p0"), ("ref", "p0"))]
+    tables = {"tbl": [[0.0, 1.0], [1.0, 3.0], [2.5, 2.0], [4.0, 6.0]]}
+    out = []
+    for i, f in enumerate(forms):
+        for j, op in enumerate(["sub", "div"]):
+            for pos in (0, 1):
+                other = ("add", ("ref", "s0"), ("num", 3.0))
+                eq = (op, f, other) if pos == 0 else (op, other, f)
+                dt = dts[(i + j + pos) % len(dts)]
+                start = [0.0, 1.0, 2.0][(i + pos) % 3]
+                n = 4
+                els = [("p0", "constant", 2.0), ("q0", "converter", ("mul", ("ref", "p0"), ("num", 0.5))),
+                       ("c0", "converter", ("add", ("time",), ("num", 1.0))),
+                       ("f0", "flow", eq), ("s0", "stock", (("num", 1.0), eq))]
+                out.append({"start": start, "dt": dt, "stop": start + n * dt, "n": n, "tables": tables, "els": els, "vsize": 0})
+    return out
+
+
+def expand_els(spec):
+    """scalar view of a spec: every arrayed element becomes its components `name[i]` with the element-wise
+    equation (vector references resolved to component i, everything else broadcast)"""
+    size = spec.get("vsize", 0)
+    def comp(g, i):
+        if not isinstance(g, tuple): return g
+        if g[0] == "vref": return ("ref", f"{g[1]}[{i}]")
+        return tuple(comp(x, i) for x in g)
+    out = []
+    for name, kind, payload in spec["els"]:
+        if not kind.startswith("v"):
+            out.append((name, kind, payload)); continue
+        for i in range(size):
+            if kind == "vconstant":
+                out.append((f"{name}[{i}]", "constant", payload[i]))
+            elif kind == "vstock":
+                out.append((f"{name}[{i}]", "stock", (("num", payload[0][i]), comp(payload[1], i))))
+            else:
+                out.append((f"{name}[{i}]", kind[1:], comp(payload, i)))
+    return out
 
 
 def show_g(g):
@@ -308,12 +432,30 @@ def build_real(spec):
     m = Model(spec["start"], spec["stop"], spec["dt"], name="c01gen")
     m.points.update({k: [list(p) for p in v] for k, v in spec["tables"].items()})
     objs = {}
-    for name, kind, _ in spec["els"]:
-        objs[name] = getattr(m, kind)(name)
+    size = spec.get("vsize", 0)
+    for name, kind, payload in spec["els"]:
+        objs[name] = getattr(m, kind[1:] if kind.startswith("v") else kind)(name)
+        if kind == "vconstant":
+            objs[name].setup_vector(size, list(payload))
+        elif kind == "vstock":
+            objs[name].setup_vector(size, list(payload[0]))
+        elif kind.startswith("v"):
+            objs[name].setup_vector(size, 0.0)
+    def arg(x):
+        # parameter of a built-in: a number, nothing, or a Constant element
+        return objs[x[1]] if isinstance(x, (tuple, list)) else x
     def ex(g):
         k = g[0]
         if k == "num": return g[1]
-        if k == "ref": return objs[g[1]]
+        if k in ("ref", "vref"): return objs[g[1]]
+        if k in ("sinwave", "coswave"):
+            a = ex(g[1])
+            return getattr(sd, k)(a, g[2])
+        if k in ("exp", "sqrt"):
+            a = ex(g[1])
+            if isinstance(a, (int, float)): a = sd.time() * 0.0 + a
+            return getattr(sd, k)(a)
+        if k == "trend": return sd.trend(m, objs[g[1]], arg(g[2]), arg(g[3]))
         if k == "time": return sd.time()
         if k == "dt": return sd.dt(m)
         if k == "start": return sd.starttime(m)
@@ -350,12 +492,18 @@ def build_real(spec):
             a = ex(g[1])
             if isinstance(a, (int, float)): a = sd.time() * 0.0 + a
             return sd.lookup(a, g[2])
-        if k == "pulse": return sd.pulse(m, g[1], g[2], g[3])
-        if k == "delay": return sd.delay(m, objs[g[1]], g[2], g[3])
-        if k == "smooth": return sd.smooth(m, objs[g[1]], g[2], g[3])
+        if k == "pulse": return sd.pulse(m, arg(g[1]), arg(g[2]), arg(g[3]))
+        if k == "delay": return sd.delay(m, objs[g[1]], arg(g[2]), arg(g[3]))
+        if k == "smooth": return sd.smooth(m, objs[g[1]], arg(g[2]), arg(g[3]))
         raise ValueError(k)
     for name, kind, payload in spec["els"]:
-        if kind == "constant":
+        if kind == "vconstant":
+            continue
+        if kind == "vstock":
+            objs[name].equation = ex(payload[1])
+        elif kind.startswith("v"):
+            objs[name].equation = ex(payload)
+        elif kind == "constant":
             objs[name].equation = payload
         elif kind == "stock":
             init, eq = payload
@@ -372,9 +520,11 @@ def build_real(spec):
 
 def reference_euler(spec, times):
     """independent explicit-Euler reference (the property's right-hand side), same operation order"""
+    import numpy as np
     start, dt = spec["start"], spec["dt"]
-    kinds = {n: k for n, k, _ in spec["els"]}
-    pay = {n: p for n, _, p in spec["els"]}
+    sels = expand_els(spec)
+    kinds = {n: k for n, k, _ in sels}
+    pay = {n: p for n, _, p in sels}
     vals = [dict() for _ in times]
     smooth_state = {}
     def lookup(x, pts):
@@ -405,6 +555,9 @@ def reference_euler(spec, times):
     def tval(k, shifted):
         # raw time value the generated text uses: the label, or label(k+1) - dt inside a stock equation
         return times[k + 1] - dt if shifted else times[k]
+    def par(x):
+        # parameter of a built-in given as a Constant element: its number
+        return val(x[1], 0) if isinstance(x, (tuple, list)) else x
     def ev(g, k, shifted=False):
         c = g[0]
         if c == "num": return g[1]
@@ -435,28 +588,44 @@ def reference_euler(spec, times):
             # window [t_k - dt/2, t_k + dt/2) contains a pulse time first + j*interval (j = 0 only without interval)
             from fractions import Fraction as Fr
             tk = Fr(str(start)) + k * Fr(str(dt)); h = Fr(str(dt)) / 2
-            first, iv = Fr(str(g[2])), Fr(str(g[3]))
+            first, iv = Fr(str(float(par(g[2])))), Fr(str(float(par(g[3]))))
+            vol = val(g[1][1], k) if isinstance(g[1], (tuple, list)) else g[1]
             cands = [first]
             if iv != 0:
                 j = (tk - first) / iv
                 cands = [first + n * iv for n in (int(j) - 1, int(j), int(j) + 1) if n >= 0]
-            return g[1] / dt if any(tk - h <= pt < tk + h for pt in cands) else 0.0
+            return vol / dt if any(tk - h <= pt < tk + h for pt in cands) else 0.0
         if c == "delay":
-            td = tval(k, shifted) - g[2]
+            # input shifted by the delay, the initial value (the input's value at the start when none is given) before that
+            td = tval(k, shifted) - par(g[2])
             if td >= start:
                 j = round((td - start) / dt)
                 return val(g[1], j)
-            return g[3]
+            return val(g[1], 0) if g[3] is None else par(g[3])
+        if c in ("sinwave", "coswave"):
+            w = 2 * np.pi / g[2] * (tval(k, shifted) - start)
+            return (np.sin(w) if c == "sinwave" else np.cos(w)) * ev(g[1], k, shifted)
+        if c == "exp": return np.exp(ev(g[1], k, shifted))
+        if c == "sqrt": return ev(g[1], k, shifted) ** (1 / 2)
+        if c == "trend":
+            # standard definition: fractional distance of the input from its first-order exponential average per
+            # averaging time, (x - avg) / (avg * T); avg(0) = init, avg(j+1) = avg(j) + dt*(x(j) - avg(j))/T
+            st = smooth_state.setdefault(("trend", id(g)), {})
+            def av(j):
+                if j in st: return st[j]
+                st[j] = par(g[3]) if j == 0 else av(j - 1) + dt * ((val(g[1], j - 1) - av(j - 1)) / par(g[2]))
+                return st[j]
+            return (val(g[1], k) - av(k)) / (av(k) * par(g[2]))
         if c == "smooth":
             key = (id(g))
             st = smooth_state.setdefault(key, {})
             def sm(j):
                 if j in st: return st[j]
-                st[j] = g[3] if j == 0 else sm(j - 1) + dt * ((val(g[1], j - 1) - sm(j - 1)) / g[2])
+                st[j] = par(g[3]) if j == 0 else sm(j - 1) + dt * ((val(g[1], j - 1) - sm(j - 1)) / par(g[2]))
                 return st[j]
             return sm(k)
         raise ValueError(c)
-    names = [n for n, _, _ in spec["els"]]
+    names = [n for n, _, _ in sels]
     return {n: [val(n, k) for k in range(len(times))] for n in names}
 
 
@@ -479,9 +648,27 @@ def simulate_real(spec):
     from BPTK_Py.util import timerange
     m, objs = build_real(spec)
     times = timerange(spec["start"], spec["stop"], spec["dt"], exclusive=False)
-    real = {n: [float(objs[n](t)) for t in times] for n, _, _ in spec["els"]}
+    real = {n: [float(m.evaluate_equation(n, t)) for t in times] for n, _, _ in expand_els(spec)}
     strings = {n: e.function_string for n, e in list(m.stocks.items()) + list(m.flows.items()) + list(m.biflows.items()) + list(m.converters.items()) + list(m.constants.items())}
+    # an arrayed element's own function string is never evaluated (its components are): leave the parents out
+    strings = {n: fs for n, fs in strings.items() if f"{n}[0]" not in strings}
     return m, times, real, strings
+
+
+OPAQUE = {"exp", "sinwave", "coswave"}
+
+
+def has_form(spec, forms):
+    def walk(g):
+        return isinstance(g, (tuple, list)) and len(g) > 0 and ((isinstance(g[0], str) and g[0] in forms) or any(walk(x) for x in g))
+    return any(walk(p) for _, k, p in spec["els"] if k not in ("constant", "vconstant"))
+
+
+def unbits(h):
+    import struct
+    if h.startswith("bad"):
+        raise ValueError(h)
+    return struct.unpack(">d", bytes.fromhex(h))[0]
 
 
 def literals_of(words):
@@ -512,11 +699,14 @@ def run(chk):
     chk.cov["trusted_base"] = [
         "Lean 4.33 kernel; axioms ⊆ {propext, Classical.choice, Quot.sound}; per-run table/skeleton obligations by `decide +kernel`",
         "evalM (lean/Bptk/Core/C01.lean): semantics of the generated lambdas — `t`, model.dt/starttime/stoptime, model.memoize as lookup at the normalised grid index, conditional expression by truthiness; all arithmetic uninterpreted",
-        "GridOK hypotheses (t<=start only at index 0; t-dt normalises to the previous index) — subject of C05; exact-grid hypothesis for raw time values",
+        "GridOK is no longer assumed for decimal grids: `gridOKN_of_C05` derives it from C05's theorems (normalize_near / back_label / label_lt) for a carrier whose time part is C05's float model (`FloatTime`), under C05's explicit error `Budget`; that IEEE doubles are an instance of C05's `Fl` is C05's trusted statement. Exact-grid hypothesis only for raw time values (`evalM_shift`)",
+        "Acyclic (rank function; evaluation with only earlier / lower-rank values provided succeeds) is a hypothesis of the existence-and-uniqueness theorem; it is discharged per generated model by the decidable `modelOKb` (sound: `acyclic_of_modelOKb`) evaluated by the driver on the real function strings for delay-free models, and exercised for all models by the instrumented evaluator `evalO` the driver simulates with",
         "CPython evaluates the parsed function string compositionally; Model.memoize returns the value of the element's lambda (memo transparency: C08)",
         "A1 grammar, probes and lexer as in C02",
     ]
     chk.assumptions = ["acyclic models over the DSL vocabulary; stochastic functions excluded (C08)",
+                       "numpy's exp/sin/cos are opaque: models using them are compared with the Lean interpreter to rel. 1e-9 (libm vs numpy differ in the last bit) and exactly with the Python reference, which calls the same numpy functions",
+                       "arrayed elements: vectors of stocks/flows/converters/constants with one element-wise operator per equation (nested arrayed operators and arrayed biflows are refused by the DSL with an exception)",
                        "bit-exact comparison against the Lean interpreter of the real function strings; reference Euler compared exactly for dyadic dt and with rel. tolerance 1e-9 otherwise",
                        "pulse with an interval is exact only when dt and interval are binary fractions (float modulo) — excluded from generated models, see known findings"]
     # ---------------- correspondence + reference
@@ -539,7 +729,7 @@ def run(chk):
         return first_diff(spec, real, ref) is not None
     def first_diff(spec, real, ref):
         dy = math.log2(spec["dt"]).is_integer()
-        for n, _, _ in spec["els"]:
+        for n, _, _ in expand_els(spec):
             for k, (a, b) in enumerate(zip(real[n], ref[n])):
                 b = float(b)
                 if math.isnan(a) or math.isnan(b) or abs(b) > 1e9:
@@ -547,21 +737,48 @@ def run(chk):
                 if a != b and (dy or abs(a - b) > 1e-9 * max(1.0, abs(b))):
                     return (n, k, a, b)
         return None
-    for _ in range(n_models):
-        spec = gen_model(rng, dts)
+    import BPTK_Py.util.floating_point as fp
+    # thorough: every dt of the list also with long runs (30–40 steps; the stop time is reached through the
+    # normalised grid for every dt) — the dt is forced so that each one is covered
+    plan = [(None, False)] * n_models
+    if not chk.quick:
+        plan += [(d, True) for d in dts for _ in range(40)]
+    solveK = 3
+    stats.update({"long_runs": {}, "dsl_rejected": 0, "solveF_checked": 0, "arrayed_models": 0, "steps_max": 0})
+    directed = directed_models(dts)
+    stats["directed_models"] = len(directed)
+    plan = [("directed", d) for d in directed] + plan
+    for force_dt, long_run in plan:
+        spec = long_run if force_dt == "directed" else gen_model(rng, [force_dt] if force_dt else dts, long_run)
+        if force_dt == "directed":
+            long_run = False
         try:
             m, times, real, strings = simulate_real(spec)
             ref = reference_euler(spec, times)
         except (ZeroDivisionError, OverflowError, RecursionError):
             stats["rejected"] += 1
             continue
+        except (AttributeError, TypeError, KeyError, IndexError) as ex:
+            # the DSL refused to build an arrayed equation (exception, no value): outside the property
+            if spec.get("vsize"):
+                stats["dsl_rejected"] += 1
+                stats.setdefault("dsl_rejected_sample", f"{type(ex).__name__}: {str(ex)[:80]}")
+                continue
+            raise
+        if len(times) != spec["n"] + 1 or times[-1] != fp.normalize(spec["stop"], spec["dt"], spec["start"], max(fp.scale(spec["start"]), fp.scale(spec["dt"]))):
+            ref_fail = ref_fail or (spec, ("<grid>", len(times) - 1, times[-1], spec["stop"]))
         if any(math.isnan(v) or abs(v) > 1e9 for vs in ref.values() for v in map(float, vs)):
             stats["rejected"] += 1
             continue
         for n, kd, p in spec["els"]:
             stats["kinds"][kd] = stats["kinds"].get(kd, 0) + 1
-            count_forms(p if kd not in ("stock",) else p[1])
+            if kd != "vconstant":
+                count_forms(p if kd not in ("stock", "vstock") else p[1])
         stats["dt"][str(spec["dt"])] = stats["dt"].get(str(spec["dt"]), 0) + 1
+        if long_run:
+            stats["long_runs"][str(spec["dt"])] = stats["long_runs"].get(str(spec["dt"]), 0) + 1
+        stats["steps_max"] = max(stats["steps_max"], spec["n"])
+        stats["arrayed_models"] += 1 if spec.get("vsize") else 0
         d = first_diff(spec, real, ref)
         if d is not None and ref_fail is None:
             ref_fail = (spec, d)
@@ -573,36 +790,80 @@ def run(chk):
             lits |= literals_of(w)
         for t in sorted(lits):
             lines_.append(f"lit {t} {fbits(float(t))}")
-        lines_.append(f"spec {fbits(spec['start'])} {fbits(spec['dt'])} {fbits(spec['stop'])}")
+        prec = max(fp.scale(spec["start"]), fp.scale(spec["dt"]))
+        lines_.append(f"spec {fbits(spec['start'])} {fbits(spec['dt'])} {fbits(spec['stop'])} {prec}")
         lines_.append("times " + ",".join(fbits(t) for t in times))
         for tn, pts in spec["tables"].items():
             lines_.append(f"points {tn} " + ",".join(f"{fbits(x)}:{fbits(y)}" for x, y in pts))
         for n, w in bodies.items():
             lines_.append(f"el {n} " + " ".join(w))
         lines_.append("runall")
+        # the cache-free recursive evaluator (Core `solveF`) on the first indices; its cost is exponential in the index
+        lines_.append(f"solve {min(solveK, spec['n'])}")
+        # decidable acyclicity criterion (Core `modelOKb`; sound by `acyclic_of_modelOKb`) on the real strings
+        lines_.append("acyclic")
         metas.append((spec, real, len(req), len(lines_)))
         req += lines_
         chk.case(json.dumps(spec["els"]) + str(spec["dt"]), nontrivial=True,
-                 sample={"dt": spec["dt"], "start": spec["start"], "n": spec["n"], "elements": [(n, k, show_g(p) if k not in ("stock", "constant") else (show_g(p[1]) if k == "stock" else p)) for n, k, p in spec["els"]]})
+                 sample={"dt": spec["dt"], "start": spec["start"], "n": spec["n"], "elements": [(n, k, show_g(p) if k not in ("stock", "constant", "vstock", "vconstant") else (show_g(p[1]) if k in ("stock", "vstock") else p)) for n, k, p in spec["els"]]})
     out = drive("C01", req) if req else []
     corr = None
+    def parse_reply(reply):
+        # element names may contain `=`-free brackets only; split on the first `=`
+        return dict(x.split("=", 1) for x in reply.split(";")) if "=" in reply else {}
     for spec, real, off, ln in metas:
-        reply = out[off + ln - 1]
-        bad_line = next((i for i in range(off, off + ln - 1) if out[i] != "ok"), None)
+        reply, reply_solve, reply_acyc = out[off + ln - 3], out[off + ln - 2], out[off + ln - 1]
+        bad_line = next((i for i in range(off, off + ln - 3) if out[i] != "ok"), None)
         if bad_line is not None:
             corr = corr or (spec, f"driver rejected line {req[bad_line]!r}: {out[bad_line]}")
             continue
-        got = dict(x.split("=", 1) for x in reply.split(";")) if "=" in reply else {}
-        for n, _, _ in spec["els"]:
+        got, got_solve = parse_reply(reply), parse_reply(reply_solve)
+        # every model whose references are all at `t` or `t - model.dt` (no delay) must pass the syntactic criterion;
+        # a delay reads its input at `t - d`, which the criterion does not cover (those models are covered by the
+        # instrumented evaluator alone)
+        has_delay = has_form(spec, {"delay"})
+        stats["syntactically_acyclic"] = stats.get("syntactically_acyclic", 0) + (reply_acyc == "true")
+        stats["with_delay"] = stats.get("with_delay", 0) + has_delay
+        if reply_acyc != "true" and not has_delay:
+            corr = corr or (spec, f"the real function strings do not satisfy the acyclicity criterion modelOKb: {reply_acyc}")
+        K = min(solveK, spec["n"])
+        # numpy's exp/sin/cos are not the C library's (last-bit differences): models using them are compared
+        # with a tolerance, and a larger difference (a 1-ulp difference amplified by a discontinuity) is only
+        # counted — the reference check, which calls the same numpy functions, stays exact for them
+        opaque = has_form(spec, OPAQUE)
+        def same(got_s, vals):
+            want = ",".join(fbits(v if v != 0 else 0.0) for v in vals)
+            g = (got_s or "").replace("8000000000000000", "0000000000000000")
+            if g == want or not opaque:
+                return g == want, want
+            try:
+                gv = [unbits(x) for x in g.split(",")]
+            except Exception:
+                return False, want
+            return len(gv) == len(vals) and all(a == b or abs(a - b) <= 1e-9 * max(1.0, abs(b)) for a, b in zip(gv, vals)), want
+        ok_model = True
+        for n, _, _ in expand_els(spec):
             # the sign of zero is not compared: Python's max(0, x) returns the int 0, and int arithmetic has no -0
-            want = ",".join(fbits(v if v != 0 else 0.0) for v in real[n])
-            if (got.get(n) or "").replace("8000000000000000", "0000000000000000") != want:
-                corr = corr or (spec, f"element {n}: model {got.get(n)} impl {want}")
+            okr, want = same(got.get(n), real[n])
+            oks, want_s = same(got_solve.get(n), real[n][:K + 1])
+            if not (okr and oks):
+                ok_model = False
+                if not opaque:
+                    corr = corr or (spec, f"element {n}: model {got.get(n)} impl {want}" if not okr else
+                                    f"element {n}: cache-free recursive evaluator solveF {got_solve.get(n)} impl {want_s}")
                 break
+            stats["solveF_checked"] += K + 1
+        if opaque:
+            stats["opaque_models"] = stats.get("opaque_models", 0) + 1
+            stats["opaque_within_tol" if ok_model else "opaque_divergent"] = stats.get("opaque_within_tol" if ok_model else "opaque_divergent", 0) + 1
     chk.cov["traces_validated_against_impl"] = len(metas)
     chk.cov["distribution"] = stats
-    chk.cov["rule"] = ("seeded random acyclic models (1–2 stocks, 1–3 flows/biflows/converters, constants, optional smooth; equations to depth 3 over + − × ÷, number*element, "
-                       "unary minus, min/max/abs, If, step, lookup, delay, time/dt/starttime; every form also directly inside a stock equation); dt from "
+    chk.cov["rule"] = ("a deterministic directed family (every leaf / built-in form as left and right operand of − and ÷ directly inside a stock equation and a flow) + "
+                       "seeded random acyclic models (1–2 stocks, 1–3 flows/biflows/converters, constants, optional smooth / trend with number or Constant parameters, optional vector family of "
+                       "arrayed stock/flow/converter/constant with element-wise equations; equations to depth 3 over + − × ÷, number*element, "
+                       "unary minus, min/max/abs, If, step, lookup, delay (number / Constant duration, number / Constant / no initial value), pulse, sinwave/coswave, exp, sqrt, time/dt/starttime; "
+                       "every form also directly inside a stock equation); thorough: additionally 40 long runs (30–40 steps, stop time reached on the normalised grid) for EVERY dt of the list; "
+                       "per model also: the cache-free recursive evaluator solveF (indices 0..3) = implementation, and the decidable acyclicity criterion on the real strings; dt from "
                        f"{dts}; per model: every element at every grid time — real simulation = Lean evalM interpreter of the real function strings (bit-exact) and = independent Euler reference. "
                        "distinct = (elements, dt); all non-trivial (≥ 1 stock with a compound equation)")
     # ---------------- decide
@@ -614,7 +875,7 @@ def run(chk):
         m, times, real, strings = simulate_real(small)
         ref = reference_euler(small, times)
         d = first_diff(small, real, ref) or d
-        chk.add_finding("euler:" + str(next((k for n, k, _ in small["els"] if n == d[0]), "?")),
+        chk.add_finding("euler:" + str(next((k for n, k, _ in expand_els(small) if n == d[0]), "grid" if d[0] == "<grid>" else "?")),
                         f"element {d[0]} at grid index {d[1]}: simulation {d[2]!r}, explicit Euler {d[3]!r} (dt={small['dt']}, start={small['start']})",
                         {"spec": json.loads(json.dumps(small)), "element": d[0], "index": d[1], "observed": d[2], "expected": d[3],
                          "function_strings": strings})
